@@ -93,6 +93,9 @@ def status_before_return(prog: Program, rep, c: ClassInfo, sv: FuncInfo) -> None
             rep.ok("status-checked-before-return", sv.short, f"`{short(r, 60)}`: no status is produced by this backend call (failure is signalled by exception or at factorisation)", nontrivial=False)
 
 
+_MODULE_CONSTS: Dict[str, object] = {}
+
+
 def _bool_eval(e: ast.AST, env: Dict[str, bool]):
     if isinstance(e, ast.Constant):
         return e.value
@@ -100,6 +103,8 @@ def _bool_eval(e: ast.AST, env: Dict[str, bool]):
         t = U(e)
         if t in env:
             return env[t]
+        if t in _MODULE_CONSTS:
+            return _MODULE_CONSTS[t]
         raise KeyError(t)
     if isinstance(e, ast.UnaryOp) and isinstance(e.op, ast.Not):
         return not _bool_eval(e.operand, env)
@@ -213,6 +218,11 @@ def lu(prog: Program, rep, x: ExcFlow) -> None:
             raise AnalysisError("LUSolver: cannot relate the stored flag to the transposition of the factorised matrix")
     sv = c.methods["solve"]
     fs = facts_for(sv)
+    # literal module-level constants of the solver's module (e.g. _TRANS_FLAG = "T") may be used in the flag expression
+    _MODULE_CONSTS.clear()
+    for n_ in c.module.tree.body:
+        if isinstance(n_, ast.Assign) and len(n_.targets) == 1 and isinstance(n_.targets[0], ast.Name) and isinstance(n_.value, ast.Constant):
+            _MODULE_CONSTS[n_.targets[0].id] = n_.value.value
     rs = returns_of(sv)
     if not rs:
         raise AnalysisError("LUSolver.solve: no return")
